@@ -32,14 +32,25 @@ def gen_script(rng):
             short = rng.random() < 0.35
             bad = rng.random() < 0.12      # an argument the format cannot carry: the request cannot be sent
             arg = ("a", b"a" * 70000) if bad else nodelib.gen_body(rng)
-            steps.append("rpc %s %s %s %d %s" % ("S" if short else "L", hx(b"erlang"), hx(rng.choice([b"node", b"self", b"is_alive"])), 1, etf.show(arg)))
+            # L / S: rpc_call_raw_with_timeout; X: rpc_call_with_timeout; Y: rpc_call; Z: rpc_call_raw (default timeout: always answered at once)
+            variant = "S" if short else rng.choice(["L", "L", "X", "X", "Y", "Z"])
+            steps.append("rpc %s %s %s %d %s" % (variant, hx(b"erlang"), hx(rng.choice([b"node", b"self", b"is_alive"])), 1, etf.show(arg)))
             calls.append({"short": short})
             if connected and not bad:
                 sent.append(len(calls) - 1)
             if short and connected and not bad:
                 steps.append("expire")
+            if variant in ("Y", "Z") and connected and not bad:
+                if rng.random() < 0.25:
+                    steps.append("reply @%d %s" % (len(sent) - 1, etf.show(rng.choice([("a", b"not_rex"), ("t", [("a", b"rex")]), ("t", [("a", b"xer"), ("i", 1)]), ("t", [("a", b"rex"), ("i", 1), ("i", 2)])]))))
+                else:
+                    reply(len(sent) - 1, nodelib.gen_body(rng))
+                steps.append("sync")
         elif r < 0.65 and sent:
-            reply(rng.randrange(len(sent)), nodelib.gen_body(rng))
+            if rng.random() < 0.12:     # an answer that is not a {rex, Result} pair
+                steps.append("reply @%d %s" % (rng.randrange(len(sent)), etf.show(rng.choice([("a", b"not_rex"), ("t", [("a", b"xer"), ("i", 1)]), ("l", [("a", b"rex"), ("i", 1)])]))))
+            else:
+                reply(rng.randrange(len(sent)), nodelib.gen_body(rng))
             steps.append("sync")
         elif r < 0.73 and sent:
             # a reply for the same identifier number of another incarnation of the node, or with another serial: not ours
@@ -77,9 +88,10 @@ def oracle(case, impl):
         t = etf.Toks(s)
         op = t.next()
         if op == "rpc":
-            short = t.next() == "S"
+            variant = t.next()
+            short = variant == "S"
             bad = ("61" * 70000) in s
-            calls.append({"short": short, "state": "notconnected" if not connected else "sendfailed" if bad else "pending"})
+            calls.append({"short": short, "unwrap": variant in ("X", "Y"), "state": "notconnected" if not connected else "sendfailed" if bad else "pending"})
             if connected and not bad:
                 sent.append(len(calls) - 1)
             want = "ok" if connected and not bad else "err"
@@ -111,7 +123,16 @@ def oracle(case, impl):
                     continue
                 printed.add(i)
                 if isinstance(st, tuple):
-                    if not g.startswith("reply ") or etf.denote(etf.parse_term(g[6:])) != st[1]:
+                    v = st[1]
+                    if calls[i]["unwrap"]:
+                        # rpc_call / rpc_call_with_timeout hand out Result of {rex, Result}; any other answer is an error
+                        if v[0] == "tuple" and len(v[1]) == 2 and v[1][0] == ("atom", b"rex"):
+                            v = v[1][1]
+                        else:
+                            if g != "badreply":
+                                return ("violation", "call %d was answered with something that is not {rex, Result} and returned: %s" % (i, g[:60]))
+                            continue
+                    if not g.startswith("reply ") or etf.denote(etf.parse_term(g[6:])) != v:
                         return ("violation", "call %d did not return the reply addressed to it: %s" % (i, g[:80]))
                 elif g != st:
                     return ("violation", "call %d: expected %s, got %s" % (i, st, g[:60]))
